@@ -19,9 +19,11 @@ RULE = ("grid: due offset {-5s,-1us,+400us,+0.3,+0.9995,+1.0,+1.5,+5s,+1h(jump),
         "delivery judged; fingerprint = (broker, offset, phase, consumer mode, via | multi pattern); trivial = none")
 ASSUMPTIONS = ["Redis and RabbitMQ are wire-level fakes (RabbitMQ rule R2: per-message TTL expires at the queue head only)",
                "virtual time; bounded latency L = 10 s of virtual time after max(T, consumer start)",
-               "early = more than 1 ms before T"]
+               "early = more than 1 ms before T",
+               "the AMQP fake accepts per-message expirations of any size; a real RabbitMQ server is believed to refuse values above 2^32-1 ms (49.7 days) with a channel error, "
+               "so what repid does for longer delays on RabbitMQ is judged here only as far as the fake goes (not verifiable offline)"]
 EVAL_COUNTER = "deliveries_judged"
-REQUIRED = ["deliveries_judged", "due_past", "due_subsecond", "due_seconds", "due_far", "visibility_probes", "multi_scenarios", "peek_scenarios", "peek_returns", "crowd_scenarios", "timezone_offset_runs", "busy_consumer_scenarios"]
+REQUIRED = ["deliveries_judged", "due_past", "due_subsecond", "due_seconds", "due_far", "visibility_probes", "multi_scenarios", "peek_scenarios", "peek_returns", "crowd_scenarios", "timezone_offset_runs", "busy_consumer_scenarios", "far_future_probes"]
 CASE_TIMEOUT = 120
 
 OFFSETS = [-5.0, -0.000001, 0.0004, 0.3, 0.9995, 1.0, 1.5, 5.0, 3600.0, 2592000.0]
@@ -64,6 +66,9 @@ def gen_cases(tier, seed):
         # delivered after a bounded number of further deliveries
         for backlog in (1, 3):
             cases.append({"type": "busy", "kind": kind, "backlog": backlog, "seed": rnd.randrange(10**6)})
+        # due times months and years ahead: still not deliverable weeks later, deliverable when the day comes
+        for days in ((60, 400) if tier == "quick" else (45, 60, 400, 3650)):
+            cases.append({"type": "veryfar", "kind": kind, "days": days, "via": rnd.choice(VIAS[:2]), "seed": rnd.randrange(10**6), "latency": None if kind == "mem" else 0.003})
         # the same clock arithmetic on a machine whose local time is not UTC (due times are naive local datetimes)
         for tz in ("AAA-5", "BBB5"):
             cases.append({"type": "tz", "kind": kind, "tz": tz, "seed": rnd.randrange(10**6)})
@@ -85,6 +90,65 @@ EPOCH = datetime(2040, 1, 1)
 
 def vt(dt):
     return (dt - EPOCH).total_seconds()
+
+
+async def veryfar(loop, case, out, stats, fps):
+    """A message due `days` ahead, looked at after 1 day, after 49.8 days (beyond 2^32 ms) and one day before T through a
+    fresh NORMAL consumer each time: never delivered; delivered once T has come."""
+    from repid.data._parameters import DelayProperties
+    from repid.message import MessageCategory
+    from rv.rigs import Rig, key_of
+
+    kind, days = case["kind"], case["days"]
+    rig = Rig(kind, loop, latency=case["latency"], seed=case["seed"])
+    try:
+        conn = rig.make_connection("p1")
+        await conn.connect()
+        mb = conn.message_broker
+        await mb.queue_declare("q")
+        loop.jump(1.37)
+        now = datetime.now()
+        T = now + timedelta(days=days, seconds=0.25)
+        if case["via"] == "api":
+            await mb.enqueue(key_of(conn, "m1", "t", "q"), "p", mb.PARAMETERS_CLASS(delay=DelayProperties(next_execution_time=T)))
+        else:
+            from repid import Job
+
+            await Job("t", queue="q", id_="m1", deferred_until=T, _connection=conn).enqueue()
+        tT, t0 = vt(T), vt(now)
+        stops = sorted({t0 + 86400.0, t0 + 49.8 * 86400.0, tT - 86400.0})
+        ctx = f"veryfar/{case['via']}"
+        for ts in [x for x in stops if x < tT - 3600] + [tT + 1.0]:
+            await asyncio.sleep(0.5)
+            await rig.quiesce_wire()
+            loop.jump_to(ts)
+            cons = mb.get_consumer("q", None, None, MessageCategory.NORMAL)
+            await cons.start()
+            got = None
+            try:
+                key, _payload, _params = await asyncio.wait_for(cons.consume(), L_BOUND if ts > tT else 3.0)
+                got = loop.time()
+                await mb.ack(key)
+            except asyncio.TimeoutError:
+                pass
+            await cons.finish()
+            stats["deliveries_judged"] += 1
+            stats["far_future_probes"] += 1
+            if ts < tT:
+                if got is not None:
+                    out.append(V("early", kind, ctx, f"due in {days} days: delivered to a normal consumer after {(got - t0) / 86400:.2f} days, {(tT - got) / 86400:.2f} days early"))
+                    break
+                if rig.snapshot().get("m1") != ["delayed"]:
+                    out.append(V("invisible_as_delayed", kind, ctx, f"due in {days} days: after {(ts - t0) / 86400:.2f} days the message is at {rig.snapshot().get('m1')}"))
+                    break
+            elif got is None:
+                out.append(V("late", kind, ctx, f"due in {days} days: not delivered within {L_BOUND}s after T; state {rig.snapshot().get('m1')}"))
+        stats["due_far"] += 1
+        fps.add(f"{kind}/veryfar/{days}/{case['via']}")
+        await conn.disconnect()
+        stats["unknown_server_commands"] += rig.unknown_commands()
+    finally:
+        rig.close()
 
 
 async def single(loop, kind, item, lat, seed, out, stats, fps, samples):
@@ -556,6 +620,10 @@ def run_case(case):
         res = vl.run(lambda loop: multi(loop, case, out, stats, fps, samples), max_steps=3_000_000, seed=case["seed"])
         if res.exc is not None:
             out.append(V("harness_or_api_error", case["kind"], "multi", f"{type(res.exc).__name__}: {res.exc}"))
+    elif case["type"] == "veryfar":
+        res = vl.run(lambda loop: veryfar(loop, case, out, stats, fps), max_steps=6_000_000, seed=case["seed"])
+        if res.exc is not None:
+            out.append(V("harness_or_api_error", case["kind"], "veryfar", f"{type(res.exc).__name__}: {res.exc}"))
     elif case["type"] == "busy":
         res = vl.run(lambda loop: busy(loop, case, out, stats, fps), max_steps=6_000_000, seed=case["seed"])
         if res.exc is not None:
